@@ -249,7 +249,7 @@ func (run *checkRun) verifyFn(s *FnSpec) *fnResult {
 func (run *checkRun) verifyLemma(s *FnSpec) *fnResult {
 	fr := &fnResult{spec: s}
 	ex := &Exec{ctx: newCtx(), db: run.db, spec: s, cf: run.db.files[s.Pkg], pkgPath: s.Pkg, params: map[string]TV{},
-		notes: map[string]bool{}, strIDs: map[string]int{}, euclid: map[string]*euclidEntry{}, usedContracts: map[string]*FnSpec{}}
+		notes: map[string]bool{}, strIDs: map[string]int{}, euclid: map[string]*euclidEntry{}, usedContracts: map[string]*FnSpec{}, fidx: map[string]Term{}}
 	st := &State{ex: ex, locals: map[*ssa.Alloc]Value{}, regs: map[ssa.Value]Value{}, heaps: map[string]Term{},
 		ghost: map[string]Value{}, ranged: map[string]bool{}}
 	st.allocTop = ex.ctx.Const("allocTop0", SInt)
@@ -328,6 +328,9 @@ func (run *checkRun) solveAll(dump string) []*ObResult {
 				os.WriteFile(filepath.Join(verifDir, "out", "dump", sanitize(j.ob.Name)+"_"+strconv.Itoa(i)+".smt2"), []byte(q), 0o644)
 			}
 			to := run.timeout
+			if j.ob.Cover {
+				to = 2 // vacuity probes only need a quick 'sat'; 'unknown' is not a failure
+			}
 			results[i] = inst{res: solve(q, to), ob: j.ob, fr: j.fr, q: q}
 		}(i)
 	}
